@@ -98,7 +98,14 @@ func (s *Server) Close() {
 		s.HC.CloseIdleConnections()
 	}
 	if s.Srv != nil {
-		s.Srv.Close()
+		// httptest.Server.Close waits for outstanding requests: with a handler that never returns (a wedged emulator,
+		// already reported as an unanswered request) it would wait for ever. The wedged server is abandoned.
+		done := make(chan struct{})
+		go func() { s.Srv.Close(); close(done) }()
+		select {
+		case <-done:
+		case <-time.After(5 * time.Second):
+		}
 	}
 }
 
